@@ -211,6 +211,49 @@ fn serialize_padded(x: &Sx, rng: &mut Rng, pad_head: bool, out: &mut Vec<u8>) {
     }
 }
 
+/// A generator that READS its block references: it prepends one extra spend whose parent id is
+/// sha256(ref0 ‖ ref1), computed at run time from the first two references, in that order. The same
+/// extra spend is inserted into the abstract bundle, so the model knows the output.
+pub fn refs_reader_program(b: &mut ABundle, rng: &mut Rng) -> (Sx, Vec<Vec<u8>>) {
+    let n = 2 + rng.usize(2);
+    let refs: Vec<Vec<u8>> = (0..n)
+        .map(|i| {
+            let k = rng.usize(6);
+            [vec![i as u8 + 1], rng.bytes(k)].concat()
+        })
+        .collect();
+    let rest = generator_value(b);
+    let parent = vcore::sha256(&[&refs[0], &refs[1]]);
+    let ph = vcore::bundlegen::puzzle(0).tree_hash();
+    let amount = rng.below(500);
+    let q = |v: Sx| Sx::pair(Sx::atom(&[1]), v);
+    let env = Sx::atom(&[1]);
+    let refs_list = Sx::list(&[Sx::atom(&[5]), Sx::list(&[Sx::atom(&[6]), env])]); // (f (r 1))
+    let ref0 = Sx::list(&[Sx::atom(&[5]), refs_list.clone()]);
+    let ref1 = Sx::list(&[Sx::atom(&[5]), Sx::list(&[Sx::atom(&[6]), refs_list])]);
+    let tail = Sx::list(&[vcore::bundlegen::puzzle(0), Sx::atom(&vcore::ints::minimal_be_u64(amount)), Sx::nil()]);
+    let extra = Sx::list(&[Sx::atom(&[4]), Sx::list(&[Sx::atom(&[11]), ref0, ref1]), q(tail)]);
+    let (spend_list, ext) = rest.as_pair().map(|(l, e)| (l.clone(), e.clone())).unwrap();
+    let program = Sx::list(&[Sx::atom(&[4]), Sx::list(&[Sx::atom(&[4]), extra, q(spend_list)]), q(ext)]);
+    b.spends.insert(
+        0,
+        vcore::bundlegen::ASpend {
+            parent,
+            puzzle_idx: 0,
+            puzzle_hash: ph,
+            amount,
+            amount_atom: Sx::atom(&vcore::ints::minimal_be_u64(amount)),
+            parent_atom: Sx::atom(&parent),
+            puzzle_hash_atom: Sx::atom(&ph),
+            conds: vec![],
+            cond_term: Sx::nil(),
+            spend_ext: Sx::nil(),
+            fields: 4,
+        },
+    );
+    (program, refs)
+}
+
 fn case_generated(ctx: &Ctx, rng: &mut Rng, rep: &mut Report, params: &vcore::bundlegen::GenParams, spend_limit_stratum: bool) {
     let b = if spend_limit_stratum {
         let n = *rng.pick(&[5999usize, 6000, 6001]);
@@ -230,43 +273,7 @@ fn case_generated(ctx: &Ctx, rng: &mut Rng, rep: &mut Report, params: &vcore::bu
         6 => (procedural_generator(&b), "procedural"),
         7 => (computed_program(&generator_value(&b), rng, 0), "procedural-computed-atoms"),
         8 => {
-            let n = 2 + rng.usize(2);
-            let refs: Vec<Vec<u8>> = (0..n)
-                .map(|i| {
-                    let k = rng.usize(6);
-                    [vec![i as u8 + 1], rng.bytes(k)].concat()
-                })
-                .collect();
-            let rest = generator_value(&b);
-            let parent = vcore::sha256(&[&refs[0], &refs[1]]);
-            let ph = vcore::bundlegen::puzzle(0).tree_hash();
-            let amount = rng.below(500);
-            let q = |v: Sx| Sx::pair(Sx::atom(&[1]), v);
-            let env = Sx::atom(&[1]);
-            let refs_list = Sx::list(&[Sx::atom(&[5]), Sx::list(&[Sx::atom(&[6]), env])]); // (f (r 1))
-            let ref0 = Sx::list(&[Sx::atom(&[5]), refs_list.clone()]);
-            let ref1 = Sx::list(&[Sx::atom(&[5]), Sx::list(&[Sx::atom(&[6]), refs_list])]);
-            let tail = Sx::list(&[vcore::bundlegen::puzzle(0), Sx::atom(&vcore::ints::minimal_be_u64(amount)), Sx::nil()]);
-            let extra = Sx::list(&[Sx::atom(&[4]), Sx::list(&[Sx::atom(&[11]), ref0, ref1]), q(tail)]);
-            let (spend_list, ext) = rest.as_pair().map(|(l, e)| (l.clone(), e.clone())).unwrap();
-            let program = Sx::list(&[Sx::atom(&[4]), Sx::list(&[Sx::atom(&[4]), extra, q(spend_list)]), q(ext)]);
-            // the same extra spend on the model's side
-            b.spends.insert(
-                0,
-                vcore::bundlegen::ASpend {
-                    parent,
-                    puzzle_idx: 0,
-                    puzzle_hash: ph,
-                    amount,
-                    amount_atom: Sx::atom(&vcore::ints::minimal_be_u64(amount)),
-                    parent_atom: Sx::atom(&parent),
-                    puzzle_hash_atom: Sx::atom(&ph),
-                    conds: vec![],
-                    cond_term: Sx::nil(),
-                    spend_ext: Sx::nil(),
-                    fields: 4,
-                },
-            );
+            let (program, refs) = refs_reader_program(&mut b, rng);
             refs_for_reader = Some(refs);
             (program, "procedural-reads-block-refs")
         }
